@@ -124,7 +124,7 @@ func (e *Engine) VerifyFunc(c *FuncContract) *FnCtx {
 			}
 			found = true
 			aenv := &Env{fc: fc, pkg: ax.Pkg, vars: map[string]CVal{}, bound: map[string]CVal{}, st: st, old: fr.old}
-			t, err := aenv.evalBool(ax.Expr)
+			t, err := aenv.evalBool(closeLemma(ax))
 			if err != nil {
 				fc.unsupported("axiom %s: %v", an, err)
 				continue
@@ -179,17 +179,81 @@ func (e *Engine) VerifyLemma(l *Lemma, axioms []*Lemma) *FnCtx {
 	fc.short = "lemma"
 	fc.props = l.Props
 	env := &Env{fc: fc, pkg: l.Pkg, vars: map[string]CVal{}, bound: map[string]CVal{}, st: &State{heap: map[string]Term{}}, old: &State{heap: map[string]Term{}}}
+	if len(l.Using) > 0 {
+		axioms = nil
+		for _, n := range l.Using {
+			if n == "-" {
+				continue
+			}
+			if n == "@opaque" {
+				fc.opaqueLemma = true
+				continue
+			}
+			found := false
+			for _, ax := range e.specs.Lemmas {
+				if ax.Name == n && ax != l {
+					axioms = append(axioms, ax)
+					found = true
+				}
+			}
+			if !found {
+				fc.unsupported("lemma %s: unknown axiom or lemma %q", l.Name, n)
+			}
+		}
+	}
+	if len(l.Using) > 0 {
+		axioms = nil
+		for _, n := range l.Using {
+			if n == "-" {
+				continue
+			}
+			if n == "@opaque" {
+				fc.opaqueLemma = true
+				continue
+			}
+			found := false
+			for _, ax := range e.specs.Lemmas {
+				if ax.Name == n && ax != l {
+					axioms = append(axioms, ax)
+					found = true
+				}
+			}
+			if !found {
+				fc.unsupported("lemma %s: unknown axiom or lemma %q", l.Name, n)
+			}
+		}
+	}
 	for _, ax := range axioms {
 		env.pkg = ax.Pkg
-		t, err := env.evalBool(ax.Expr)
+		t, err := env.evalBool(closeLemma(ax))
 		if err != nil {
 			fc.unsupported("axiom %s: %v", ax.Name, err)
 			continue
 		}
 		fc.fact(t.S)
-		fc.trusted["axiom "+ax.Name+": "+ax.Src] = true
+		if ax.Axiom {
+			fc.trusted["axiom "+ax.Name+": "+ax.Src] = true
+		} else {
+			fc.trusted["lemma "+ax.Name+" (proved as its own obligation)"] = true
+		}
 	}
 	env.pkg = l.Pkg
+	for _, p := range l.Params {
+		gt, srt, err := e.resolveType(p.Type, l.Pkg)
+		if err != nil {
+			fc.unsupported("lemma %s: %v", l.Name, err)
+			continue
+		}
+		nm := "p$" + sanitize(p.Name)
+		fc.declare(nm, srt)
+		fc.inputs = append(fc.inputs, nm)
+		env.vars[p.Name] = CVal{Term{nm, srt}, gt}
+		fc.params[p.Name] = CVal{Term{nm, srt}, gt}
+		if srt == SString && !fc.opaque() {
+			fc.fact(fmt.Sprintf("(str.in_re %s (re.* (re.range \"\\u{0}\" \"\\u{ff}\")))", nm))
+		}
+	}
+	fc.entry = env.st
 	t, err := env.evalBool(l.Expr)
 	if err != nil {
 		fc.unsupported("lemma %s: %v", l.Name, err)
@@ -200,6 +264,12 @@ func (e *Engine) VerifyLemma(l *Lemma, axioms []*Lemma) *FnCtx {
 	o := fc.oblig("lemma", l.Name, t.S, "true", 0, l.Props)
 	o.Src = l.Src
 	o.Lemma = l
+	if l.Cover {
+		o.Kind = "cover"
+		o.Cover = true
+		o.Goal = "false"
+		o.Src = "the axioms used are not contradictory (vacuity guard)"
+	}
 	return fc
 }
 
@@ -242,6 +312,14 @@ func opaqueText(txt string) (string, error) {
 		line = strings.ReplaceAll(line, "(str.++ ", "(ostr.cat ")
 		line = strings.ReplaceAll(line, "(str.len ", "(ostr.len ")
 		if strings.Contains(line, "(str.") || strings.Contains(line, "(re.") {
+			if strings.HasPrefix(line, "(define-fun spec$") {
+				// a pure spec definition that uses real string operations: forget its body (sound weakening)
+				if d, ok := defineToDeclare(line); ok {
+					line = reStringSort.ReplaceAllString(d, "OStr")
+					out = append(out, line)
+					continue
+				}
+			}
 			return "", fmt.Errorf("string operation outside the opaque subset: %s", firstLines(line, 1))
 		}
 		line = reStringSort.ReplaceAllString(line, "OStr")
@@ -260,7 +338,7 @@ func opaqueText(txt string) (string, error) {
 // smtFile renders one obligation as an SMT-LIB script.
 func (o *Oblig) smtFile(getModel bool) string {
 	txt := o.smtFileRaw(getModel)
-	if o.Fc != nil && o.Fc.c != nil && o.Fc.c.Opts["strings"] == "opaque" {
+	if o.Fc != nil && o.Fc.opaque() {
 		t2, err := opaqueText(txt)
 		if err != nil {
 			return "(set-logic ALL)\n(echo \"" + strings.ReplaceAll(err.Error(), "\"", "'") + "\")\n(check-sat)\n"
@@ -316,4 +394,88 @@ func sortedKeys(m map[string]bool) []string {
 	}
 	sort.Strings(out)
 	return out
+}
+
+// closeLemma: a lemma with parameters, used as an assumption, is universally quantified over them.
+func closeLemma(l *Lemma) Expr {
+	if len(l.Params) == 0 {
+		return l.Expr
+	}
+	return &EQuant{Forall: true, Vars: l.Params, Body: l.Expr}
+}
+
+// defineToDeclare turns "(define-fun f ((x S) ...) R body)" into "(declare-fun f (S ...) R)".
+func defineToDeclare(line string) (string, bool) {
+	rest := strings.TrimPrefix(line, "(define-fun ")
+	sp := strings.Index(rest, " ")
+	if sp < 0 {
+		return "", false
+	}
+	name := rest[:sp]
+	rest = rest[sp+1:]
+	if !strings.HasPrefix(rest, "(") {
+		return "", false
+	}
+	// parameter list
+	depth, end := 0, -1
+	for i, c := range rest {
+		if c == '(' {
+			depth++
+		} else if c == ')' {
+			depth--
+			if depth == 0 {
+				end = i
+				break
+			}
+		}
+	}
+	if end < 0 {
+		return "", false
+	}
+	params := rest[1:end]
+	rest = strings.TrimSpace(rest[end+1:])
+	// return sort
+	var ret string
+	if strings.HasPrefix(rest, "(") {
+		depth = 0
+		for i, c := range rest {
+			if c == '(' {
+				depth++
+			} else if c == ')' {
+				depth--
+				if depth == 0 {
+					ret = rest[:i+1]
+					break
+				}
+			}
+		}
+	} else {
+		ret = strings.SplitN(rest, " ", 2)[0]
+	}
+	// sorts of the parameters: "(x S) (y T)"
+	var sorts []string
+	p := strings.TrimSpace(params)
+	for len(p) > 0 {
+		if p[0] != '(' {
+			return "", false
+		}
+		depth = 0
+		j := -1
+		for i, c := range p {
+			if c == '(' {
+				depth++
+			} else if c == ')' {
+				depth--
+				if depth == 0 {
+					j = i
+					break
+				}
+			}
+		}
+		inner := p[1:j]
+		k := strings.Index(inner, " ")
+		sorts = append(sorts, strings.TrimSpace(inner[k+1:]))
+		p = strings.TrimSpace(p[j+1:])
+	}
+	return "(declare-fun " + name + " (" + strings.Join(sorts, " ") + ") " + ret + ")", true
 }
